@@ -63,6 +63,10 @@ type Conn struct {
 	chSessionInited chan struct{}
 	session         interface{}
 
+	// closed when the open handler has returned; only set for connections
+	// that are handed to the poller before the open handler runs.
+	chOpened chan struct{}
+
 	subprotocol string
 
 	compressionLevel int
@@ -171,6 +175,15 @@ func (c *Conn) safeBufferPointer(pbody *[]byte) *[]byte {
 	return pbody
 }
 
+// waitOpened blocks until the open handler has returned.
+//
+//go:norace
+func (c *Conn) waitOpened() {
+	if c.chOpened != nil {
+		<-c.chOpened
+	}
+}
+
 //go:norace
 func (c *Conn) handleDataFrame(opcode MessageType, fin bool, pbody *[]byte) {
 	pbody = c.safeBufferPointer(pbody)
@@ -188,6 +201,7 @@ func (c *Conn) handleDataFrame(opcode MessageType, fin bool, pbody *[]byte) {
 			if c.releasePayload {
 				defer c.Engine.BodyAllocator.Free(pbody)
 			}
+			c.waitOpened()
 			h(c, opcode, fin, pbody)
 		}) {
 			if c.releasePayload {
@@ -213,6 +227,7 @@ func (c *Conn) handleMessage(opcode MessageType, pbody *[]byte) {
 			if c.releasePayload {
 				defer c.Engine.BodyAllocator.Free(pbody)
 			}
+			c.waitOpened()
 			c.handleWsMessage(opcode, pbody)
 		}) {
 			if c.releasePayload {
